@@ -80,7 +80,7 @@ class Gen:
     def word(self):
         # small pool of words so that "same data" happens
         if self.r.random() < 0.3:
-            return self.r.choice([0x4142, 0x2020, 0x0D0D, 0x410D, 0x8081, 0x7F41])
+            return self.r.choice([0x4142, 0x2020, 0x0D0D, 0x410D, 0x8081, 0x7F41, 0x0E0E, 0x0F0F, 0x1B6E, 0x1B6F])
         return (self.byte() << 8) | self.byte()
 
     def group(self, kind=None):
